@@ -993,3 +993,83 @@ def past4(ctx):
                   'records can be removed (or the queue emptied) without moving start_position past the truncation point: an emptied queue would hand out already used positions')
     if n < 2:
         ctx.missing('removals', 'expected the emptying and the partial removal of record metas in truncate_head')
+
+
+@rule('MA3b', ['C16'], floor=1, template='pairing')
+def ma3b(ctx):
+    """Wherever a queue's record metas are dropped wholesale (clear, truncate, mem::take/replace, field
+    replaced) the payload buffer is released too, on every path: an emptied queue holds no payload bytes."""
+    n = 0
+    for b in ctx.f.bodies.values():
+        if b.generic_dup() or b.is_closure or not b.path.startswith('mem::queue::MemQueue::'):
+            continue
+
+        def on_field(cs, field, argi=0):
+            al = cs.arg_local(argi)
+            hops = 0
+            while al is not None and hops < 6:
+                hops += 1
+                nxt = None
+                for o in b.trace_local(al):
+                    if o[0] == 'rv' and o[2]['k'] == 'ref':
+                        f = place_fields(o[2]['place'])
+                        if f and f[-1][1] == field and f[-1][2]:
+                            return True
+                        if not f and all(e['k'] == 'deref' for e in o[2]['place']['p']):
+                            nxt = o[2]['place']['l']
+                al = nxt
+            return False
+        drops = []
+        rel = []
+        for cs in b.calls:
+            if re.search(r'Vec::<mem::queue::RecordMeta>::(clear|truncate)$', cs.name) and on_field(cs, 'record_metas'):
+                drops.append(cs.point)
+            if re.search(r'^std::mem::(take|replace|swap)::<', cs.name):
+                if on_field(cs, 'record_metas'):
+                    drops.append(cs.point)
+                if on_field(cs, 'concatenated_records'):
+                    rel.append(cs.point)
+            if cs.node is not None and ctx.f.bodies[cs.node].path == 'mem::rolling_buffer::RollingBuffer::clear' and on_field(cs, 'concatenated_records'):
+                rel.append(cs.point)
+        for (p, pl, rv) in b.stores:
+            loc = mem_loc(pl)
+            f = place_fields(pl)
+            if f and f[-1][1] == 'record_metas' and len([e for e in pl['p'] if e['k'] == 'field']) == 1:
+                drops.append(p)
+            if f and f[-1][1] == 'concatenated_records' and len([e for e in pl['p'] if e['k'] == 'field']) == 1:
+                rel.append(p)
+        rets = b.return_points()
+        k = 0
+        for d in sorted(set(drops)):
+            n += 1
+            k += 1
+            ok = any(b.dominates(r, d) for r in rel) or (bool(rel) and not any(x in b.reach_after(d, avoid=rel) for x in rets))
+            ctx.check(ok, '%s:metas-dropped#%d' % (b.path, k), where(b, d), 'dropping all record metas is paired with releasing the payload buffer',
+                      'the record metas can be dropped wholesale while the payload buffer keeps its bytes: memory_used stays inflated after the queue was emptied')
+    if n == 0:
+        ctx.missing('drops', 'no wholesale drop of record metas found in MemQueue')
+
+
+@rule('NI8', ['C14'], floor=1, template='inventory')
+def ni8(ctx):
+    """Policy code has no panic site that depends on policy values (a division / remainder by a
+    configured quantity would make one policy panic where the others return)."""
+    n = 0
+    bad = []
+    cons = {b.path for b in consult_bodies(ctx)}
+    for b in all_nontest_bodies(ctx):
+        if not (in_policy_module(b) or b.path in cons):
+            continue
+        n += 1
+        for bi, blk in enumerate(b.blocks):
+            if not b.live[bi]:
+                continue
+            t = blk['term']
+            if t['k'] == 'assert' and t.get('msg') in ('DivisionByZero', 'RemainderByZero'):
+                bad.append('%s (%s)' % (b.loc(b.pterm[bi]), b.path))
+            if t['k'] == 'call':
+                cs = b.call_at.get(b.pterm[bi])
+                if cs is not None and re.search(r'(::div|::rem|::div_f32|::div_f64|::checked_div|Div<.*>>::div|Rem<.*>>::rem)$', cs.name) and 'checked' not in cs.name:
+                    bad.append('%s (%s: %s)' % (b.loc(cs.point), b.path, cs.name[-40:]))
+    ctx.check(not bad, 'no-division-in-policy-code', '-', 'no division / remainder in the %d policy bodies' % n,
+              'policy code divides by a run-time quantity (%s): a zero interval or similar configuration panics under one policy only' % bad, nontrivial=False)
